@@ -77,7 +77,7 @@ def headers_rule(args, hdrs, any_empty):
     args = args or {}
     hdrs = hdrs or {}
     xm = args.get(b"x-match")
-    mode_any = xm is not None and xm[0] == "str" and unhex(xm[1]) == b"any"
+    mode_any = xm is not None and xm[0] in ("str", "bytes") and unhex(xm[1]) == b"any"   # a string, short or long
     margs = [(k, v) for k, v in args.items() if not k.startswith(b"x-")]
     def matched(k, v):
         return k in hdrs and (v[0] == "nil" or field_equal(v, hdrs[k]))
@@ -90,7 +90,7 @@ def xmatch_valid(args):
     if not args or b"x-match" not in args:
         return True
     v = args[b"x-match"]
-    return v[0] == "str" and unhex(v[1]) in (b"all", b"any")
+    return v[0] in ("str", "bytes") and unhex(v[1]) in (b"all", b"any")
 
 
 def has_nan(args):
@@ -679,7 +679,7 @@ def run(res):
         return None
 
     rows_to_judge = list(bad_rows or [])
-    if not pr["ok"] or bad_rows is None:
+    if not pr["ok"] or bad_rows is None or gen_status.get("status") != "ok":
         rows_to_judge = list(range(len(row_res)))
     row_fail = None
     for i in rows_to_judge:
@@ -739,9 +739,14 @@ def run(res):
 
     # ---- decide
     corr_broken = model_ok and (bad_rows or bad_pairs or bad_routes or b_bad_model)
-    if pr["ok"] and model_ok and not corr_broken and not judged_bad and not b_judged:
+    tr_ok = gen_status.get("status") == "ok"
+    if pr["ok"] and model_ok and tr_ok and not corr_broken and not judged_bad and not b_judged:
         return
     what = []
+    if not tr_ok:
+        # the obligation "the model's parameters are what the source says" is no longer shown: never fall back silently
+        what.append("translator/cmd/routing no longer recognises the routing source, so Route/gen/RouteGen.v does not describe it: %s"
+                    % gen_status.get("detail", gen_status))
     if not pr["ok"]:
         what.append("proof obligation no longer checks: %s: %s" % (pr.get("failed_file"), pr.get("error", "")[:500]))
     if not model_ok:
@@ -754,7 +759,7 @@ def run(res):
             first = "broker script %s, steps %s" % (broker_ops(scripts[b_bad_model[0][0]])[0], b_bad_model[0][1])
         what.append("correspondence routing model/implementation differs on %d exhaustive rows, %d pairs, %d route cases, %d broker scripts (first: %s)"
                     % (len(bad_rows), len(bad_pairs), len(bad_routes), len(b_bad_model or []), first[:600]))
-    if judged_bad and pr["ok"] and not corr_broken:
+    if judged_bad and pr["ok"] and tr_ok and not corr_broken:
         what.append("the implementation agrees with the proved model but the python judge objects (%d cases): the judge and the Coq spec differ" % len(judged_bad))
     # failing input: a route case first (it carries binding set + message), then topic pairs
     rb = [x for x in judged_bad if x[0] == "R"]
